@@ -199,7 +199,11 @@ NOT_YET = {
 ADDED = {
     "C02": "Also: the application withdrawing a request (held back or in flight) as a fault - the others must not notice; a request submitted "
            "by another task while the shutdown is under way.",
-    "C04": "Also: three long prefixes (duplicate inside the lifetime, re-use after the expiry, the instant old timers are due) behind which the search continues.",
+    "C01": "Also: whole datagrams of 64..4096 bytes through the real recvmsg transport over a fake socket that cuts like the kernel.",
+    "C07": "Also: same-message-ID copies of notifications and of the terminating response after a pause; a late first response.",
+    "C08": "Also: the notification that ends a registration is itself sent, also behind an unacknowledged one.",
+    "C14": "Also: withdrawal of the request whose exchange is open; colliding message IDs.",
+    "C04": "Also: the same (endpoint, ID) under another token and towards a second server endpoint of the process; three long prefixes (duplicate inside the lifetime, re-use after the expiry, the instant old timers are due) behind which the search continues.",
     "C13": "Also: process death between two operations (a lifetime without any file-system effect) as an operation of the histories.",
     "C03": "Also: a library-generated Block2 follow-up as the CON under test, responses to an older request, the tuning handed over as a "
            "TransportTuning subclass, a CON that had to wait behind two requests answered in turn, and a follower held back behind it and withdrawn.",
